@@ -146,6 +146,18 @@ class Lanes:
                     return l & r
                 if op in ('!=', '=='):
                     return T if ((l != r) == (op == '!=')) else F
+                if op in ('<', '<=', '>', '>='):
+                    return T if {'<': l < r, '<=': l <= r, '>': l > r, '>=': l >= r}[op] else F
+            if op in ('!=', '=='):
+                # scalar search: keys.byte_array[i] compared with the search byte
+                for a, b in ((l, r), (r, l)):
+                    if isinstance(a, tuple) and a[:2] == ('elem', 'this.keys.byte_array') and isinstance(a[2], int) and b == ('key',):
+                        if not 0 <= a[2] < 16:
+                            raise Unsupported('key array subscript %d outside the array' % a[2])
+                        t = self.lane_eq(a[2])
+                        if isU(t):
+                            raise NeedLane(t[1])
+                        return t if op == '==' else {T: F, F: T}[t]
             if op == '&' and (isinstance(l, Bits) or isinstance(r, Bits)):
                 lb = l if isinstance(l, Bits) else Bits.of_int(l)
                 rb = r if isinstance(r, Bits) else Bits.of_int(r)
@@ -247,10 +259,20 @@ class Lanes:
                     return self.count
                 return ('load', p)
             if e.get('ck') == 'conv' and e.get('obj') is not None:
+                ob = f.strip_casts(e['obj'])
+                ob = f.resolve(ob) if isinstance(ob, dict) else ob
+                if isinstance(ob, dict) and ob.get('k') == 'call' and ob.get('name') == 'operator[]':
+                    return self.ev(e['obj'], depth + 1)       # the value of an array element read through in_critical_section
                 p = self.path(e['obj'])
                 if p == 'this.children_count':
                     return self.count
                 return ('load', p)
+            if e.get('obj') is not None and not args and e.get('cid') is not None and isinstance(f.strip_casts(e['obj']), dict) and f.strip_casts(e['obj']).get('k') == 'this':
+                tg0 = f.callee(e)
+                if tg0 is not None and tg0.blocks and len(tg0.blocks) <= 4 and not tg0.params and (tg0.file or '').startswith(('/repo/', '/tmp/')):
+                    # an argument-less accessor of the node itself (get_children_count): evaluated, not trusted by name
+                    sub = Lanes(tg0, self.kind, self.count, self.first, params={}, rank=self.rank, assign=self.assign)
+                    return sub.run()
             if nm == 'operator[]' and args:
                 base = self.path(args[0])
                 idx = self.ev(args[1], depth + 1)
@@ -313,13 +335,19 @@ class Lanes:
         f = self.f
         b = f.entry
         steps = 0
-        while b is not None and steps < 50:
+        while b is not None and steps < 400:
             steps += 1
             blk = f.blocks[b]
             for e in blk['elems']:
                 if is_assert_elem(e):
                     continue
-                if e.get('k') == 'decl':
+                if e.get('k') == 'unop' and e.get('op') in ('++', '--', 'post++', 'post--', 'pre++', 'pre--'):
+                    # loop counter of a scalar search
+                    x = f.strip_casts(e['sub'])
+                    if not (isinstance(x, dict) and x.get('k') == 'ref' and x.get('did') in self.env and isinstance(self.env[x['did']], int)):
+                        raise Unsupported('increment of something else than an integer local')
+                    self.env[x['did']] += 1 if '++' in e['op'] else -1
+                elif e.get('k') == 'decl':
                     for v in e['vars']:
                         if 'init' in v:
                             self.env[v['did']] = self.ev(v['init'])
@@ -574,6 +602,27 @@ def find1(cfg):
             _simd(res, cfg, f, n)
         else:
             _indexed(res, cfg, f, n)
+    # the OLC node classes normally forward to the shared implementation; one that has a body of its own (olc_inode_16 in the
+    # ThreadSanitizer build) is held to the same specification
+    OLC_CLS = re.compile(r'^unodb::detail::olc_inode_(4|16|48|256)<')
+    own = 0
+    for f in cfg.functions:
+        m = OLC_CLS.match(f.cls)
+        if not m or f.short != 'find_child' or not f.blocks or len(f.params) != 1:
+            continue
+        fwd = [e for b, i, e in f.elements() if e.get('k') == 'call' and e.get('name') == 'find_child' and CLS.match(e.get('cls') or '')]
+        if fwd:
+            continue
+        n = m.group(1)
+        own += 1
+        res.count('find_child methods')
+        res.functions.add(f.sig)
+        if n in CAP:
+            _simd(res, cfg, f, n)
+        else:
+            _indexed(res, cfg, f, n)
+    if own:
+        res.note('FIND-1: %d find_child bodies of the OLC node classes that do not forward to the shared implementation were evaluated [%s]' % (own, cfg.name))
     res.floor('find_child methods', 16)
     return res
 
